@@ -38,3 +38,17 @@ def headerSafe (k : List Nat) : Bool :=
     || c == 5760 || (8192 ≤ c && c ≤ 8202) || c == 8232 || c == 8233 || c == 8239 || c == 8287 || c == 12288
     || (28 ≤ c && c ≤ 31))
 end Np.Key
+
+namespace Np.Key
+/-- `numpy.array(exponents, dtype=uint32)` applied to 64-bit integers: the value modulo 2**32 -/
+def narrow32 (x : Int) : Nat := (x % 4294967296).toNat
+
+/-- the constructor before the repair D56: exponents (64-bit integers as a caller hands them over) were narrowed to
+uint32 first and encoded afterwards -/
+def storeKeyOld (offset : Nat) (e : List Int) : Option (List Nat) := encodeKey offset (e.map narrow32)
+
+/-- the constructor as repaired (`ndpoly.__new__`): an exponent below 0 or beyond the last code point minus the offset
+is refused (`none` = `ValueError`) before anything is narrowed -/
+def storeKey (offset : Nat) (e : List Int) : Option (List Nat) :=
+  if e.all (fun x => decide (0 ≤ x) && decide (x ≤ (1114111 : Int) - offset)) then encodeKey offset (e.map Int.toNat) else none
+end Np.Key
